@@ -11,3 +11,7 @@ def fill(chk, NA):
         'every body up to length 6/7 over an 8-symbol alphabet (data, the three delimiters, LF, CR, blank), several delimiter triples, every read schedule with <=1/2 short reads at buffer sizes 1..8, boundary windows around the real 8 KiB refills, and three source kinds, all compared with a reference tokenizer written from the statement',
         'trusted: the 40-line reference tokenizer; data alphabet is {A,1}; the short-read menu for large reads is {1,2,half,full-2,full-1}; CR/LF following leading blanks is left open by the statement and skipped',
         'stateless exhaustive exploration with iterative deviation (short-read) bounding on the real reader', 'E1', 'DESIGN.md 3/C01')
+    chk('C04', 'model_checking',
+        'explicit-state BFS over all envelope/HL/LX segment histories up to depth 5/6 over a ~50-symbol alphabet (plus a narrower alphabet to depth 6/8), every transition executed on the real reader and compared with an independent recount; non-nesting histories are explored too (no exception, some envelope error)',
+        'trusted: ref.recount/ref.nests (written from the statement); control numbers range over two values per level; HL/LX verdicts the statement leaves open are not compared',
+        'explicit-state breadth-first search of the real reader paired with a reference model', 'E2', 'DESIGN.md 3/C04')
